@@ -55,6 +55,7 @@ Required == {<<"top">>, <<"g", "alpha">>, <<"dc", "xval">>, <<"dc2", "inner", "x
 Mut(kind, p, n) == [kind |-> kind, p |-> p, n |-> n]
 Mutations(cls) == {Mut("none", << >>, << >>)}
              \cup UNION {{Mut("foreign", pos, n) : n \in Names(pos, cls)} : pos \in Positions}
+             \cup {Mut("foreign-empty", pos, <<"zzq">>) : pos \in Positions \ {<<"top">>}}          \* a foreign key whose value is {}
              \cup {Mut("known-in-other-section", <<"test">>, <<"ckpt">>)}
              \cup {Mut(k, r, << >>) : k \in {"remove", "null"}, r \in Required \ {<<"model">>}}
              \cup {Mut("remove", <<"model">>, << >>), Mut("remove", <<"model", "class_path">>, << >>), Mut("remove", <<"model2">>, << >>),
@@ -62,6 +63,7 @@ Mutations(cls) == {Mut("none", << >>, << >>)}
 Apply(cfg, m) ==
   CASE m.kind = "none" -> cfg
     [] m.kind \in {"foreign", "known-in-other-section"} -> cfg \cup {E(m.p \o m.n, "1")}
+    [] m.kind = "foreign-empty" -> cfg \cup {E(m.p \o m.n, "emptymap")}
     [] m.kind = "remove" -> {e \in cfg : ~IsPrefix(m.p, e.p)}
     [] m.kind = "null" -> {e \in cfg : ~IsPrefix(m.p, e.p)} \cup {E(m.p, "null")}
 
@@ -78,16 +80,16 @@ AlgIsRef == ~ForeignOnlyInDroppedSection(Shape, Cfg) => AlgOutcome(Shape, Cfg) =
 \* the instance is what it claims: the unmutated configuration is valid, every foreign insertion is foreign, every
 \* removal / nulling of a key in force makes it missing
 ValidIsOk == mut.kind \in {"none", "known-in-other-section"} => Outcome(Shape, Cfg) = "ok"
-ForeignIsForeign == mut.kind = "foreign" => \E e \in Foreign(Shape, Cfg) : e.p = mut.p \o mut.n
+ForeignIsForeign == mut.kind \in {"foreign", "foreign-empty"} => \E e \in Foreign(Shape, Cfg) : e.p = mut.p \o mut.n
 RemovalMatters == (mut.kind \in {"remove", "null"} /\ (mut.p[1] = "fit" => base[1] = "fit") /\ mut.p \notin {<<"subcommand">>, <<"model", "class_path">>}) => Outcome(Shape, Cfg) = "err"
 \* removing only the explicit "subcommand" key leaves a section from which the choice is made (C17): still valid
 ImplicitChoice == (mut.kind \in {"remove", "null"} /\ mut.p = <<"subcommand">>) => Outcome(Shape, Cfg) = "ok"
 \* the deviation is exactly "a foreign key inside the section that was not chosen"
-DeviationShape == ForeignOnlyInDroppedSection(Shape, Cfg) => (mut.kind = "foreign" /\ Len(mut.p) >= 1 /\ mut.p[1] \in {"fit", "test"} /\ base[1] # mut.p[1])
+DeviationShape == ForeignOnlyInDroppedSection(Shape, Cfg) => (mut.kind = "foreign-empty" \/ (mut.kind = "foreign" /\ Len(mut.p) >= 1 /\ mut.p[1] \in {"fit", "test"} /\ base[1] # mut.p[1]))
 
 CfgSeq == LET q == SetToSeq(Cfg) IN [j \in 1..Len(q) |-> [p |-> q[j].p, v |-> q[j].v]]
 EmitCase == Emit => PrintT(ToJson([base |-> base, mut |-> mut, cfg |-> CfgSeq, ref |-> Outcome(Shape, Cfg), alg |-> AlgOutcome(Shape, Cfg),
-                                   dev |-> ForeignOnlyInDroppedSection(Shape, Cfg)]))
+                                   dev |-> ForeignOnlyInDroppedSection(Shape, Cfg), devkind |-> DevKind(Shape, Cfg)]))
 ShapeSeq == LET q == SetToSeq(DOMAIN Shape) IN [j \in 1..Len(q) |-> [path |-> q[j], kind |-> Shape[q[j]].kind, req |-> Shape[q[j]].req, ord |-> Shape[q[j]].ord]]
 ASSUME Emit => PrintT(ToJson([shape |-> ShapeSeq]))
 =============================================================================
